@@ -15,7 +15,9 @@ CHECKS = {
     "C02": (MC, "7/C02", "seq",
             "Same pipeline with callbacks that perform any list operation while being invoked (nesting depth 2 exhaustively, depth 3 by simulation): "
             "the scripts are re-entrant programs; the abstract spec is the snapshot/cursor semantics of the statement; hangs (lock held across a "
-            "callback) and freed-memory accesses are observed by watchdog and ASan on every execution.",
+            "callback) and freed-memory accesses are observed by watchdog and ASan on every execution. forEach / forEachIf functions are user code too, "
+            "and a second plan does the same at dispatcher level (DQImpl / TraceDQ: listeners and visitors that append, remove, query and dispatch on "
+            "the dispatcher that is calling them).",
             "TLA+ model checking (TLC) + transition-cover replay of re-entrant programs + TLC trace validation"),
     "C14": (MC, "7/C14", "seq",
             "HetGen.tla is the reference model of prototype binding (first listed prototype a callback / an argument list / a predicate is callable "
@@ -29,13 +31,14 @@ CHECKS = {
             "RemGen.tla is the reference state machine of ScopedRemover (who answers for which listener, target, liveness) with the statement's "
             "invariants checked by TLC on all bounded histories of add/remove through removers, reset, setDispatcher, move construction, move "
             "assignment into empty and non-empty removers, swap and destruction in any order over two dispatchers; its transition cover runs on "
-            "the real ScopedRemover<EventDispatcher/EventQueue>; TraceDQ.tla tracks responsibility and rejects any listener left attached with "
+            "the real ScopedRemover<EventDispatcher/EventQueue> and ScopedRemover<CallbackList>; TraceDQ.tla tracks responsibility and rejects any listener left attached with "
             "nobody answering for it, any foreign listener touched, any wrong removeListener result.",
             "TLA+ model checking (TLC) of the reference model + transition-cover replay + TLC trace validation"),
     "C16": (MC, "7/C16", "seq",
             "RemGen.tla models CounterRemover listeners (triggers left = max(n,1), detached before their last run) and ConditionalRemover listeners "
-            "(scripted condition per trigger) under direct, nested (re-dispatch from the wrapped listener) and queued triggers; the cover runs on "
-            "the real helpers (created as temporaries) over EventDispatcher/EventQueue worlds; TraceDQ.tla demands exactly the promised invocations.",
+            "(scripted condition per trigger), registered through the append, prepend and insert-before forms, under direct, nested (re-dispatch "
+            "from the wrapped listener) and queued triggers; the cover runs on the real helpers (created as temporaries) over EventQueue and "
+            "CallbackList worlds; TraceDQ.tla demands exactly the promised invocations.",
             "TLA+ model checking (TLC) of the reference model + transition-cover replay + TLC trace validation"),
     "C17": (MC, "7/C17", "seq",
             "AnyData.tla is the reference model of boxes (holds / moved-from, value, chain of moves, queue round trip) with the ledger 'every held "
@@ -113,14 +116,16 @@ CHECKS = {
             "updated at the linearization points. The real CallbackList and EventDispatcher (std::map, std::unordered_map) run every scenario under "
             "the controlled scheduler (dfs with preemption bound + random); TraceCC.tla decides linearizability by tracking the set of abstract "
             "configurations consistent with the recorded begin/end history (results, at-most-once removal, final order) and the visit rules of "
-            "concurrent traversals; deadlock (stuck) and unlocked structural accesses have no step in the specification.",
+            "concurrent traversals; deadlock (stuck) and unlocked structural accesses have no step in the specification. The same scenarios also run "
+            "uncontrolled with the shipped std::mutex / SpinLock under ThreadSanitizer (stress mode), judged by the same TraceCC.tla.",
             "TLA+ model checking (TLC) + systematic schedule exploration of the real code + TLC trace validation (configuration-set linearizability)"),
     "C06": (MC, "7/C06", "conc",
             "ConcQueue.tla (threads x micro-steps of eventqueue.h, ghost event ledger) is model-checked by TLC over all interleavings of the scenario "
             "sets; the real EventQueue runs the producer/consumer scenarios under a controlled scheduler that owns every mutex, atomic and condition "
             "variable (GeneralThreading policy) with depth-first schedule enumeration up to a preemption bound plus seeded random schedules; TLC "
             "validates every recorded API history against TraceCQ.tla (no event twice, none lost after drain, payload intact, per-producer order, "
-            "no deadlock, no unlocked structural access).",
+            "no deadlock, no unlocked structural access). A stress mode runs the scenarios with the shipped std::mutex / condition_variable under "
+            "ThreadSanitizer and validates those histories with the same specification.",
             "TLA+ model checking (TLC) of the interleaving model + systematic schedule exploration of the real code + TLC trace validation"),
     "C07": (MC, "7/C07", "conc",
             "ConcQueue.tla models wait as predicate-under-mutex / atomic unlock+sleep / notify_one and the DisableQueueNotify ctor/dtor steps; TLC "
